@@ -298,8 +298,13 @@ pub fn validate(c: &RpcCall, r: &[u8], ctx: &AppCtx) -> Result<(), VErr> {
                             let _prog = x.u32().map_err(g)?;
                             let _vers = x.u32().map_err(g)?;
                             if c.vers == 2 {
-                                let _prot = x.u32().map_err(g)?;
+                                let prot = x.u32().map_err(g)?;
                                 let port = x.u32().map_err(g)?;
+                                // a version-2 mapping names its endpoint as (protocol, port): a protocol
+                                // that is neither TCP (6) nor UDP (17) advertises no endpoint at all
+                                if prot != 6 && prot != 17 {
+                                    return Err(("rpc-dump-prot".into(), format!("DUMP mapping names protocol {} (neither TCP 6 nor UDP 17)", prot)));
+                                }
                                 if port != ctx.sport as u32 {
                                     return Err(("rpc-dump-port".into(), format!("DUMP advertises port {} but the client contacted {}", port, ctx.sport)));
                                 }
